@@ -25,6 +25,10 @@ type outcome struct {
 
 func (o *outcome) failed() bool { return o.monitor != "" || o.mismatch != "" }
 
+// halted: a monitor fired; the history is not continued. (After a mere disagreement with the
+// model the run goes on without the model.)
+func (o *outcome) halted() bool { return o.monitor != "" }
+
 // bmSession drives the real bitmapSectorAllocator and Model/Bitmap.lean in lock step and
 // keeps the monitor's own account of which sectors are handed out.
 type bmSession struct {
@@ -50,9 +54,11 @@ func (s *bmSession) ask(line, actual string) bool {
 		exp = "driver-error " + err.Error()
 	}
 	if exp != actual {
+		// record the first disagreement, detach the model (its state has diverged) and go
+		// on with the monitors alone: they decide whether this is a violation of the property
 		s.out.mismatch = "bitmap correspondence: " + line
 		s.out.expected, s.out.actual = exp, actual
-		return false
+		s.drv = nil
 	}
 	return true
 }
@@ -296,7 +302,7 @@ func (s *bmSession) freeAll(r *hx.Rand) bool {
 // (this keeps shrunk histories meaningful).
 func (s *bmSession) exec(line string) {
 	w := strings.Fields(line)
-	if len(w) == 0 || s.out.failed() {
+	if len(w) == 0 || s.out.halted() {
 		return
 	}
 	if w[0] != "new" && (s.sa == nil || s.dead) {
@@ -412,7 +418,7 @@ func (s *bmSession) exec(line string) {
 			s.violation("allocated %d sectors beyond the capacity %d", c, s.n)
 			return
 		}
-		if s.out.failed() {
+		if s.out.halted() {
 			return
 		}
 		s.freeAll(r)
@@ -423,7 +429,7 @@ func runBitmap(lines []string, drv *hx.Driver) *outcome {
 	s := newBmSession(drv)
 	for _, l := range lines {
 		s.exec(l)
-		if s.out.failed() {
+		if s.out.halted() {
 			break
 		}
 	}
@@ -458,7 +464,7 @@ func genBitmap(r *hx.Rand, drv *hx.Driver, thorough bool) ([]string, *outcome) {
 		}
 		return bmMax[r.Intn(len(bmMax))]
 	}
-	for i := 0; i < nops && !s.out.failed() && !s.dead; i++ {
+	for i := 0; i < nops && !s.out.halted() && !s.dead; i++ {
 		switch r.Pick(40, 14, 12, 6, 6, 3, 2) {
 		case 0:
 			do("alloc %d", pickMax())
@@ -528,7 +534,7 @@ func genBitmap(r *hx.Rand, drv *hx.Driver, thorough bool) ([]string, *outcome) {
 			}
 		}
 	}
-	if !s.out.failed() && !s.dead {
+	if !s.out.halted() && !s.dead {
 		do("drain %d", r.Intn(1<<30))
 	}
 	return hist, s.out
